@@ -25,6 +25,14 @@ pub broadcast axiom fn ax_cow_owned<'a, B: Clone>(y: B)
 pub broadcast group group_cow { ax_cow_borrowed, ax_cow_owned }
 
 
+// ---- the reflexive conversion `impl<T> From<T> for T { fn from(t: T) -> T { t } }` (core::convert) --------------------------
+// vstd specifies `Into::into` through `FromSpec` but leaves `FromSpec<T> for T` uninterpreted, so `x.into()` at `T -> T` (the only
+// way frost-core's `batch::Verifier::queue<I: Into<Item<C>>>` is instantiated) would be unspecified for callers.  Call it explicitly
+// (`proof { ax_from_reflexive::<T>(x); }`): the nullary `obeys_from_spec()` fact does not fire through `broadcast use`.
+pub broadcast axiom fn ax_from_reflexive<T>(t: T)
+    ensures <T as vstd::std_specs::convert::FromSpec<T>>::obeys_from_spec(), #[trigger] <T as vstd::std_specs::convert::FromSpec<T>>::from_spec(t) == t;
+
+
 // ---- iterator adaptors (rule E7, structural form) ----------------------------------------------
 // The call `RECV.map(CLOSURE).collect()` is re-associated to `map_collect_vec(RECV, CLOSURE)`; the body below is
 // the original method chain, the `ensures` is the documented behaviour of Iterator::map + FromIterator for Vec.
